@@ -56,6 +56,9 @@ pub struct Ctx {
   pub notes: Vec<String>,
   /// when > 0 comparisons are evaluated on shadows without being recorded
   pub quiet: u32,
+  /// structural decisions pinned by the harness instance (sharding of one
+  /// exploration over several processes): not recorded as switches
+  pub frozen: HashMap<String, i64>,
 }
 
 impl Ctx {
@@ -71,6 +74,7 @@ impl Ctx {
       tokens: vec![],
       notes: vec![],
       quiet: 0,
+      frozen: HashMap::new(),
     }
   }
   pub fn term(&mut self, t: Term) -> TermId {
@@ -230,6 +234,9 @@ pub fn choose(name: &str, n: usize) -> usize {
   assert!(n >= 1);
   if n == 1 {
     return 0;
+  }
+  if let Some(v) = with(|c| c.frozen.get(name).copied()) {
+    return (v as usize).min(n - 1);
   }
   with(|c| {
     let (t, v) = declare(c, name, 0, n as i64 - 1, 0);
